@@ -62,4 +62,7 @@ def recvSendsEveryComputedAck : Bool := true
 /-- Transport._send_user_message: the give-up test reads the clock (`time.time() > start + timeout`) -/
 def sendTimeoutReadsClock : Bool := true
 
+/-- Packetizer.read_all: socket.timeout and socket.error(EAGAIN) reach one and the same NeedRekeyException test -/
+def readAllIdleBranchesShareRekeyTest : Bool := true
+
 end PV.Generated.C11
